@@ -579,7 +579,6 @@ def physReq (rt : TypeInfo) (size : Option Int) : List EK :=
   if enumErr ≠ [] then enumErr
   else match getAttr rt.attrs "static_requirements" with
     | some (.req e) => if reqMet e size then [] else [.reqNotMet rt.name]
-    | some (.bool (some true) _) => []
     | some _ => [.reqNotMet rt.name]
     | none => []
 
